@@ -158,6 +158,8 @@ def run_faithful_independent(case, ctx):
             for i in range(prog[1]):
                 ag.seed_all(prog[2] + i)
                 ag.learn_once(actor, spec, prog[2] + i)
+        elif prog[0] == "act":
+            ag.act_real(actor, spec, prog[1], k=3)
         elif prog[0] == "mutate":
             family[who] = actor = hist.mutate(actor, prog[1], prog[2])
         elif prog[0] == "lists":
@@ -178,7 +180,7 @@ def run_faithful_independent(case, ctx):
                 del G
             gc.collect()
         if actor is not None:
-            changed = bool(T.diff(s0, T.snapshot(actor))) or prog[0] == "lists"
+            changed = bool(T.diff(s0, T.snapshot(actor))) or prog[0] in ("lists", "act")
         else:
             changed = True
     except Exception as e:
@@ -204,7 +206,7 @@ def run_faithful_independent(case, ctx):
     ctx.label(f"program={prog[0]}" + (f":{prog[1]}" if prog[0] == "mutate" else ""))
     if resync:
         ctx.label("resync-allowance-used")
-    n_learn = sum(1 for o in case["history"] if o[0] == "learn")
+    n_learn = sum(1 for o in case["history"] if o[0] in ("learn", "act"))
     if n_learn >= 1 and changed:
         ctx.nontrivial({"a": algo, "o": spec.get("obs"), "h": [o[0] + (":" + o[1] if o[0] == "mutate" else "") for o in case["history"]],
                         "w": who, "p": prog[:2]})
@@ -283,9 +285,16 @@ def fi_strategy(draw, tier):
         st.tuples(st.just("mutate"), st.sampled_from(hist.MUT_KINDS[1:]), st.integers(0, 999)),
         st.tuples(st.just("lists")),
         st.tuples(st.just("del")),
+        st.tuples(st.just("act"), st.integers(0, 999)),
     ))
+    history = draw(hist.history_strategy(max_ops))
+    if spec["algo"] in ag.BANDITS or draw(st.integers(0, 5)) == 0:
+        # acting is where bandits (confidence matrix) and noisy learners keep mutable state: make sure it happens before and after the clone
+        history = history + [["act", draw(st.integers(0, 999))]]
+        if draw(st.booleans()):
+            program = ("act", draw(st.integers(0, 999)))
     return {"spec": spec, "hpconf": draw(st.booleans()) or True,
-            "history": draw(hist.history_strategy(max_ops)),
+            "history": history,
             "sibling": draw(st.booleans()), "grand": draw(st.booleans()),
             "who": draw(st.sampled_from(["parent", "clone", "sibling", "grandclone"])),
             "program": list(program), "obs_seed": draw(st.integers(0, 999))}
